@@ -201,6 +201,12 @@ def image(truth, level, t0_ms=45296789, dt_ms=1, style=None, seed=0):
     _putl(h, (400, 28), "COMPLEX REAL*4" if level == "1.1" else "UNSIGNED INTEGER*2")
     if level != "1.1" and (style or {}).get("max_range", True):
         _put(h, (440, 8), 65535)
+    lpb = (style or {}).get("lines_per_burst")
+    if lpb and level == "1.1":
+        # ScanSAR SPECAN burst layout (attributes of the image group)
+        _put(h, (448, 4), -(-n_lines // lpb))
+        _put(h, (452, 4), lpb)
+        _put(h, (456, 4), (style or {}).get("burst_overlap", 0))
     out = [bytes(h)]
     extents = []
     pos = 720
@@ -454,7 +460,9 @@ def gen_plan(rng, max_lines=40, max_pixels=32, max_images=8, level=None, big=Fal
         "map_proj": rng.random() < 0.7,
         "n_att": rng.choice([1, 2, 3, 22, 136]),
         "n_ch": rng.choice([1, 2, 4, 16]),
-        "fac_len": [rng.randint(70, 600) for _ in range(4)],
+        # auxiliary facility records: small, or one big blank "dummy data" record among them
+        "fac_len": [rng.randint(70, 600) if rng.random() < 0.8 else rng.randint(5000, 12000)
+                    for _ in range(4)],
         "extra_files": rng.choice([[], [], ["README.txt"], ["KML-browse.kml", "notes.index"]]),
     }
     # content of the per-line prefixes: fill-pixel counts, per-image flags that change from line to
@@ -467,6 +475,8 @@ def gen_plan(rng, max_lines=40, max_pixels=32, max_images=8, level=None, big=Fal
         "line_numbers": rng.choice(["normal"] * 6 + ["descending", "restart", "offset", "random"]),
         "dates": rng.choice(["normal"] * 5 + ["filler-first", "filler-some"]),
         "max_range": rng.random() < 0.7,
+        "lines_per_burst": rng.choice([None, None, 2, 3, 5]) if scansar else None,
+        "burst_overlap": rng.choice([0, 0, 1]),
     }
     # acquisition time base: mostly mid-day, sometimes crossing midnight inside the image
     n_max = max(im["lines"] for im in images)
